@@ -11,7 +11,7 @@ from vlib import log
 PID = "C05"
 PROPS = "C05_Props.v"
 TARGETS = ["C05_Props.vo", "C05_Check.vo"]  # Props pulls in C05_Proofs, C05_HCDefs/HCRelay/HCPrologue/HalfClose, C05_Delay
-HARNESS = ["control/common_test.go", "control/c05_test.go"]
+HARNESS = ["control/common_test.go", "control/c05_test.go", "control/c05_splice_test.go"]
 
 
 # ----------------------------------------------------------------------------------------------
@@ -74,9 +74,46 @@ def extract_consts():
     else:
         c["bufio_size"] = 4096    # bufio.NewReader: defaultBufSize of the Go standard library
     c["dns_max"] = int(one(r"\n\tTCPDNSMaxMessageSize\s*=\s*(\d+)\n", tcp, "TCPDNSMaxMessageSize").group(1))
+    c.update(extract_splice())
     c["direct"] = int(one(r"\n\tOutboundDirect\s+OutboundIndex\s*=\s*(0x[0-9a-fA-F]+|\d+)\n", gen, "OutboundDirect").group(1), 0)
     c["block"] = int(one(r"\n\tOutboundBlock\s+OutboundIndex\s*=\s*(0x[0-9a-fA-F]+|\d+)\n", gen, "OutboundBlock").group(1), 0)
     return c
+
+
+SPLICE_RETURNS = ["relayChunkedSpliceCopy(ctx, dst, src, record)"] * 3 + [
+    "written, err", "written, nil", "written, err", "written, nil", "written, err", "written, io.ErrShortWrite"]
+
+
+def extract_splice():
+    """relaySpliceCopyExact: the set of exits (return sites, in order) and every place pipe.data is assigned;
+    putRelaySplicePipe: the hygiene rule.  Anything of another shape is an anchor failure."""
+    src = _read("control/tcp_copy_linux.go")
+    m = re.search(r"\nfunc relaySpliceCopyExact\(ctx context\.Context, dst, src \*net\.TCPConn, record func\(int64\)\) \(int64, error\) \{\n(.*?)\n\}\n", src, re.S)
+    if not m:
+        raise AnchorMoved("relaySpliceCopyExact signature")
+    body = re.sub(r"//[^\n]*", "", m.group(1))
+    rets = [x.strip() for x in re.findall(r"\breturn ([^\n]+)", body)]
+    if rets != SPLICE_RETURNS:
+        raise AnchorMoved("relaySpliceCopyExact exits changed: %r" % rets)
+    if body.count("defer putRelaySplicePipe(pipe)") != 1 or body.count("getRelaySplicePipe()") != 1:
+        raise AnchorMoved("relaySpliceCopyExact pipe acquisition/release")
+    a, b = body.find("spliceSocketToPipe("), body.find("splicePipeToSocket(")
+    if a < 0 or b < a:
+        raise AnchorMoved("relaySpliceCopyExact fill/drain calls")
+    head, fill, drain = body[:a], body[a:b], body[b:]
+    f_fill = bool(re.search(r"if n > 0 \{[^}]*?pipe\.data \+= n\b", fill))
+    f_drain = bool(re.search(r"if n > 0 \{[^}]*?pipe\.data -= n\b", drain))
+    f_err = bool(re.search(r"if err != nil \{\s*pipe\.data = inPipe\b", drain))
+    f_short = bool(re.search(r"if n == 0 \{\s*pipe\.data = inPipe\b", drain))
+    if body.count("pipe.data") != int(f_fill) + int(f_drain) + int(f_err) + int(f_short) or "pipe.data" in head:
+        raise AnchorMoved("pipe.data is assigned at a place the model does not know")
+    put = re.search(r"\nfunc putRelaySplicePipe\(pipe \*relaySplicePipe\) \{\n(.*?)\n\}\n", src, re.S)
+    if not put or not re.search(r"if pipe\.data != 0 \{\s*pipe\.close\(\)\s*return\s*\}", put.group(1)) or "relaySplicePipePool <- pipe" not in put.group(1):
+        raise AnchorMoved("putRelaySplicePipe hygiene rule")
+    lim = re.search(r"\n\trelaySplicePipePoolLimit\s*=\s*(\d+)\n", src)
+    if not lim:
+        raise AnchorMoved("relaySplicePipePoolLimit")
+    return {"sp_fill": f_fill, "sp_drain": f_drain, "sp_err": f_err, "sp_short": f_short, "sp_limit": int(lim.group(1))}
 
 
 def write_gen(c):
@@ -91,10 +128,14 @@ def write_gen(c):
            "Definition c05_http_prefixes : list (list N) := [%s].\n"
            "Definition c05_outbound_direct : N := %d.\n"
            "Definition c05_outbound_block : N := %d.\n"
+           "Definition c05_splice_upd_fill : bool := %s.\nDefinition c05_splice_upd_drain : bool := %s.\n"
+           "Definition c05_splice_set_on_err : bool := %s.\nDefinition c05_splice_set_on_short : bool := %s.\n"
+           "Definition c05_splice_pool_limit : N := %d.\n"
            % (c["dns_first"], c["half_close"], c["prefetch"], c["relay_buf"], c["bufio_size"],
               "; ".join(str(x) for x in c["excluded"]),
               "; ".join("[" + ";".join(str(ord(ch)) for ch in p) + "]" for p in c["http"]),
-              c["direct"], c["block"]))
+              c["direct"], c["block"],
+              vlib.cbool(c["sp_fill"]), vlib.cbool(c["sp_drain"]), vlib.cbool(c["sp_err"]), vlib.cbool(c["sp_short"]), c["sp_limit"]))
     vlib.write_if_changed(os.path.join(vlib.COQ, "gen", "C05_Extracted.v"), txt)
 
 
@@ -398,7 +439,31 @@ def tcp_gate_family(tier):
     return out
 
 
+SPLICE_MODES = [("partial", 1), ("partial", 2), ("record", 1), ("record", 3), ("blocked", 0), ("upstream_close", 0), ("clean", 0), ("partial", 3)]
+
+
+def gen_splice_cases(rng, tier):
+    """splice path on real sockets: connection 1 (bulk upload into a stalled upstream) is ended at a chosen exit of
+    relaySpliceCopyExact - ctx seen at the loop top right after the n-th partial / n-th drain, cancelled while
+    blocked, upstream reset, clean EOF - then 1-3 healthy connections draw pipes from the pool"""
+    modes = SPLICE_MODES[:6] if tier == "quick" else [rng.choice(SPLICE_MODES) for _ in range(40)]
+    out = []
+    for mode, k in modes:
+        n = rng.choice([131072, 196608, 262144]) if mode != "clean" else rng.choice([1, 5000, 70000])
+        later = []
+        for _ in range(rng.choice([1, 2, 2, 3])):
+            later.append({"up": [rng.randint(0, 65535), rng.choice([1, 55, 4096, 9000])],
+                          "down": [rng.randint(0, 65535), rng.choice([0, 1, 42, 4097, 9000])]})
+        out.append({"kind": "splice", "upload": [rng.randint(0, 65535), n], "mode": mode, "cancel_at": k, "pool_seed": rng.choice([2, 2, 3]),
+                    "later": later, "concurrent": rng.random() < 0.3, "flight": "splice_%s_%d" % (mode, k)})
+    return out
+
+
 def to_harness(case):
+    if case["kind"] == "splice":
+        return {"kind": "splice", "upload": pat_bytes(*case["upload"]).hex(), "mode": case["mode"], "cancel_at": case["cancel_at"],
+                "pool_seed": case["pool_seed"], "concurrent": case["concurrent"], "wait_scale": case.get("wait_scale", 1),
+                "later": [{"up": pat_bytes(*l["up"]).hex(), "down": pat_bytes(*l["down"]).hex()} for l in case["later"]]}
     if case["kind"] == "multi":
         return {"kind": "multi", "conns": [to_harness(dict(c, wait_scale=case.get("wait_scale", 1))) for c in case["conns"]],
                 "order": case["order"], "wait_scale": case.get("wait_scale", 1)}
@@ -574,8 +639,11 @@ def run_batch(sc, binary, cases, tag):
     if len(results) != len(cases):
         return None, None, None, "harness returned %d results for %d cases" % (len(results), len(cases))
     flat = []
+    sflat = []
     for i, (c, r) in enumerate(zip(cases, results)):
-        if c["kind"] == "multi":
+        if c["kind"] == "splice":
+            sflat.append((i, c, r))
+        elif c["kind"] == "multi":
             r["_sub_codes"] = {}
             for j, (cc, rr) in enumerate(zip(c["conns"], r.get("multi") or [])):
                 flat.append((i, j, cc, rr))
@@ -590,6 +658,15 @@ def run_batch(sc, binary, cases, tag):
             results[i]["_sub_codes"][str(j)] = codes
 
     terms, defs, owners = [], [], []
+    sterms, sowners = [], []
+    for i, c, r in sflat:
+        if r.get("panic") or r.get("hang"):
+            add(i, 0, [99])
+        elif r.get("skipped") or len(r.get("later") or []) != len(c["later"]):
+            r["_skipped"] = True
+        else:
+            sterms.append(splice_to_coq(c, r))
+            sowners.append(i)
     for n, (i, j, c, r) in enumerate(flat):
         if r.get("panic") or r.get("hang"):
             add(i, j, [99])
@@ -604,21 +681,35 @@ def run_batch(sc, binary, cases, tag):
         for sname in ("client", "server"):
             for ch in c[sname]["chunks"]:
                 ch.pop("_name", None)
-    text = ("From Coq Require Import List NArith Bool.\nFrom Dae Require Import C05_Spec C05_Model C05_Check.\n"
+    text = ("From Coq Require Import List NArith ZArith Bool.\nFrom Dae Require Import C05_Spec C05_Model C05_SpliceModel C05_Check.\n"
             "From Dae.gen Require Import C05_Extracted.\nImport ListNotations.\nOpen Scope N_scope.\n"
             + "\n".join(defs) + "\n"
             + "".join("Definition case_%d : obs := %s.\n" % (n, t) for n, t in terms) +
             "Definition cases : list obs := [" + "; ".join("case_%d" % n for n, _ in terms) + "].\n"
-            "Definition R := Eval vm_compute in map check_case cases.\nPrint R.\n")
+            "Definition R := Eval vm_compute in map check_case cases.\nPrint R.\n"
+            + "".join("Definition scase_%d : sobs := %s.\n" % (n, t) for n, t in enumerate(sterms)) +
+            "Definition RS := Eval vm_compute in map check_splice [" + "; ".join("scase_%d" % n for n in range(len(sterms))) + "].\nPrint RS.\n")
     ok, outtxt = vlib.coq_eval("C05_cases_%s" % tag, text, timeout=3000)
     if not ok:
         return None, None, None, "coq evaluation failed: " + outtxt[-2500:]
-    m = re.search(r"R\s*=\s*(.*?)\n\s*:\s*list", outtxt, re.S)
+    m = re.search(r"(?m)^R\s*=\s*(.*?)\n\s*:\s*list", outtxt, re.S)
     body = re.sub(r"\s+", "", m.group(1)) if m else ""
     per = re.findall(r"\(\[([\d;]*)\],\((\d+),(\d+),(\d+),(\d+),(\d+)\)\)", body)
     if len(per) != len(terms):
         return None, None, None, "cannot parse coq output (%d vs %d): %s" % (len(per), len(terms), body[:300])
+    ms = re.search(r"(?m)^RS\s*=\s*(.*?)\n\s*:\s*list", outtxt, re.S)
+    sbody = re.sub(r"\s+", "", ms.group(1)) if ms else "[]"
+    sper = re.findall(r"\[([\d;]*)\]", sbody[1:-1]) if sterms else []
+    if len(sper) != len(sterms):
+        return None, None, None, "cannot parse coq output for the splice scenarios (%d vs %d): %s" % (len(sper), len(sterms), sbody[:300])
+    for i, p_ in zip(sowners, sper):
+        codes = [int(x) for x in p_.split(";") if x]
+        if codes:
+            add(i, 0, codes)
     sigs = []
+    for i in sowners:
+        sigs.append(("20", str(SPLICE_MODES.index((cases[i]["mode"], cases[i]["cancel_at"])) if (cases[i]["mode"], cases[i]["cancel_at"]) in SPLICE_MODES else 9),
+                     "1" if any(u > 0 for _, u in (results[i].get("drains") or [])) else "0", str(len(cases[i]["later"])), "0"))
     for (i, j), p_ in zip(owners, per):
         codes = [int(x) for x in p_[0].split(";") if x]
         if codes:
@@ -627,11 +718,49 @@ def run_batch(sc, binary, cases, tag):
     return errors, sigs, results, None
 
 
+def cpat(sn):
+    return "(pat %d %d)" % (sn[0], sn[1]) if sn[1] else "[]"
+
+
+def splice_to_coq(case, res):
+    drains = res.get("drains") or []
+    its, prev_u = [], 0
+    for k, u in drains:
+        its.append("(mkIt false (FillN %d) (DrainN %d))" % ((k + u) if prev_u == 0 else 0, k))
+        prev_u = u
+    mode = case["mode"]
+    ended_at_loop_top = mode in ("partial", "record") and res.get("cancel_idx", -1) == len(drains) - 1 and drains
+    if ended_at_loop_top:
+        its.append("(mkIt true FillEof DrainZero)")
+        exact = True
+    elif mode == "clean" and prev_u == 0:
+        its.append("(mkIt false FillEof DrainZero)")
+        exact = True
+    else:
+        its.append("(mkIt false (FillN 1) DrainErr)")     # ended inside a splice: which one is not observable
+        exact = False
+    later_s = "; ".join("(%s, %s)" % (cpat(l["up"]), cpat(l["down"])) for l in case["later"])
+
+    def obs_bytes(hexs, sn):
+        b = bytes.fromhex(hexs)
+        full = pat_bytes(*sn)
+        if b == full:
+            return cpat(sn)
+        if len(b) <= len(full) and full.startswith(b):
+            return "(take %d %s)" % (len(b), cpat(sn))
+        return cbytes_big(b)
+    later_i = "; ".join("(%s, %s, %s, %s)" % (obs_bytes(r["up"], l["up"]), obs_bytes(r["down"], l["down"]), vlib.cbool(r["up_eof"]), vlib.cbool(r["down_eof"]))
+                        for l, r in zip(case["later"], res.get("later") or []))
+    return "(mkSObs %d ([%s], %s) %s [%s] %d %d [%s] [%s])" % (
+        case["pool_seed"], "; ".join(its), "(repeat 7 (N.to_nat %d))" % case["upload"][1], vlib.cbool(exact), later_s,
+        res.get("delivered", 0), res.get("pool_len", 0), "; ".join(str(x) for x in res.get("pool_dirty") or []), later_i)
+
+
 def timeout_classified(case, codes):
     """failures that may be caused by real time on a loaded machine: a harness watchdog (code 99) anywhere, and
     anything on the real-socket cases (their only real-time dependences are read deadlines and goroutine
     scheduling).  Verdicts on the virtual clock do not depend on real time and are never retried."""
-    return 99 in codes or case["kind"] == "tcp"
+    return 99 in codes or case["kind"] in ("tcp", "splice")
 
 
 def strip_obs(r):
@@ -647,7 +776,7 @@ def is_spec_fail(codes):
 
 
 def is_model_fail(codes):
-    return any(10 <= c < 20 or c == 40 for c in codes)
+    return any(10 <= c < 20 or 40 <= c < 50 for c in codes)
 
 
 def is_thm_fail(codes):
@@ -659,6 +788,12 @@ GRACE_MS = [10000]
 
 def matcher_of(case, res, codes):
     """class of a failing input, computed from the input and what the implementation did with it"""
+    if case["kind"] == "splice":
+        if 99 in codes:
+            return "harness-panic-or-hang"
+        if 29 in codes or 21 in codes or 22 in codes:
+            return "stale-splice-pipe-returned-to-the-pool"
+        return "splice-other-" + "-".join(str(c) for c in sorted(set(codes)))
     if case["kind"] == "multi":
         sub = res.get("_sub_codes") or {}
         for j in sorted(sub, key=int):
@@ -703,6 +838,15 @@ def shrink(sc, binary, case, want, rounds=2):
     """greedy, batched: every round evaluates single-step reductions (strongest first) in ONE harness + coqc run
     and keeps the first that still fails in the same class.  Returns (case, codes, observation) or None."""
     cur, best = json.loads(json.dumps(case)), None
+    if case["kind"] == "splice":
+        # one later connection with tiny payloads is the smallest interesting history
+        c2 = json.loads(json.dumps(case))
+        c2["later"] = [{"up": [c2["later"][0]["up"][0], 55], "down": [c2["later"][0]["down"][0], 42]}]
+        c2["concurrent"] = False
+        errs, _, results, err = run_batch(sc, binary, [c2], "shrink")
+        if not err and 0 in errs and is_spec_fail(errs[0]) and matcher_of(c2, results[0], errs[0]) == want:
+            return (c2, errs[0], results[0])
+        return None
     if case["kind"] == "multi":
         # keep two connections (every pair, order of the events preserved), then drop what the servers send
         k = len(case["conns"])
@@ -773,19 +917,26 @@ def main(argv):
     args = vlib.main_args(argv)
     out = vlib.Outcome(PID, args.tier, args.seed)
     rng = vlib.rng_for(args.seed, PID)
-    n_mem = 140 if args.tier == "quick" else 2600
+    n_mem = 120 if args.tier == "quick" else 2600
     n_tcp = 10 if args.tier == "quick" else 120
-    n_multi = 45 if args.tier == "quick" else 600
+    n_multi = 36 if args.tier == "quick" else 600
 
     xlate_err = None
     prologue_go = None
+    consts = {"half_close": 10000}
     try:
         consts = extract_consts()
         GRACE_MS[0] = consts["half_close"]
         write_gen(consts)
-        prologue_go = lift_prologue()
     except (AnchorMoved, OSError) as e:
         xlate_err = "anchor moved: %s" % e
+    try:
+        prologue_go = lift_prologue()
+    except (AnchorMoved, OSError) as e:
+        xlate_err = (xlate_err + "; " if xlate_err else "") + "anchor moved: %s" % e
+    # constants that could not be extracted: the search for a failing input still runs, with the constants of
+    # the last successful extraction (coq/gen/C05_Extracted.v), and the broken tie is reported at the end
+    xlate_fatal = prologue_go is None or not os.path.exists(os.path.join(vlib.COQ, "gen", "C05_Extracted.v"))
 
     proof_ok, pinfo = vlib.proof_stage(out, PROPS, TARGETS)
     cov = {"obligations": pinfo["obligations"], "discharged": pinfo["discharged"],
@@ -802,7 +953,7 @@ def main(argv):
                        "goroutine interleaving inside relayCore.run only matters at equal virtual instants; both orders are evaluated in the model and the implementation must lie between them"]
 
     with vlib.Scratch() as sc:
-        if xlate_err:
+        if xlate_err and xlate_fatal:
             out.violation("anchor", {"broken": xlate_err}, "translator could not find its anchors in the anchored files: " + xlate_err, no_failing_input=True)
             cov.update(evaluations=0, distinct_nontrivial=0, rule="", samples=[], traces_validated_against_impl=0)
             return out.finish()
@@ -832,7 +983,7 @@ def main(argv):
             for n in sorted(os.listdir(cdir)):
                 corpus.append(json.load(open(os.path.join(cdir, n))))
         cases = (corpus + grace_family(consts["half_close"]) + [gen_case(rng, args.tier) for _ in range(n_mem)] + [gen_multi_case(rng, args.tier) for _ in range(n_multi)]
-                 + tcp_gate_family(args.tier) + [gen_tcp_case(rng, args.tier) for _ in range(n_tcp)])
+                 + tcp_gate_family(args.tier) + [gen_tcp_case(rng, args.tier) for _ in range(n_tcp)] + gen_splice_cases(rng, args.tier))
         all_err, sigs, all_res = {}, [], {}
         tie_broken = None
         shard = 150
@@ -899,6 +1050,9 @@ def main(argv):
                            "how": "./check C05 --replay <this file>; codes 21/22 bytes up/down differ from what was sent, 23/24 write-shutdown not passed on, 25 connection ended/kept, 26 read deadline left armed at relay start, 27 detection delay above window"},
                           "%s: relay outcome differs from the property on this connection script (%d failing scripts of this class)" % (mname, len(idxs)),
                           matchers=[mname])
+        if xlate_err and not spec_fail:
+            out.violation("anchor", {"broken": xlate_err, "searched": "%d connection scripts" % n_eval},
+                          "translator could not find its anchors in the anchored files: " + xlate_err, no_failing_input=True)
         if (model_fail and not all(i in spec_fail for i in model_fail)) or thm_fail or tie_broken or not proof_ok:
             pure_model = [i for i in model_fail if i not in spec_fail] or model_fail
             what = {}
@@ -918,16 +1072,18 @@ def main(argv):
         distinct = len(set(sigs))
         nontrivial = len(set(s for s in sigs if s[0] not in ("0", "8") or s[3] != "0"))
         sample = next((c for c in cases[len(corpus):] if c["kind"] == "mem"), cases[0])
-        n_conn = sum(len(c["conns"]) if c["kind"] == "multi" else 1 for c in cases)
+        n_conn = sum(len(c["conns"]) if c["kind"] == "multi" else (1 + len(c["later"]) if c["kind"] == "splice" else 1) for c in cases)
+        n_splice_skipped = len([1 for i, c in enumerate(cases) if c["kind"] == "splice" and all_res.get(i, {}).get("_skipped")])
         flights = {}
         for c in cases:
             flights[c.get("flight", "?")] = flights.get(c.get("flight", "?"), 0) + 1
         cov.update(evaluations=n_eval, distinct_nontrivial=nontrivial, distinct_signatures=distinct,
-                   rule="random connection scripts: first flight (none/HTTP variants/TLS full+partial/SSH/binary/port-53 frames: short, garbage, DNS response, oversized, incomplete) segmented at 1,2,15,16,17,half,len-1 with gaps around the sniff (1 s) and DNS (5 s) windows +-20 ms, follow-up payloads incl. 4095-4097 and 32767-32769 bytes, both orders of the two ends of stream, server data around client-EOF + grace +-10 ms, ports 53/22/3306 (excluded) and 80/443/8080, outbounds direct/block/user, dial mode ip; real-socket gate family (bufio/prefixed/sniffer stacks, the client's next segment pending in the socket when the relay starts, sizes around 4096 and 32768); fixed half-close family (first half-close at relay age 0.5/1/1.5/3 x grace, remaining bytes of the other direction half a grace later, every wrapper stack, either side first); overlapping-connection scenarios (2-4 connections over the shared buffer pools on one P: each prologue runs while others are parked between prologue and relay, random valid orders, every connection judged on its own bytes); "
+                   rule="random connection scripts: first flight (none/HTTP variants/TLS full+partial/SSH/binary/port-53 frames: short, garbage, DNS response, oversized, incomplete) segmented at 1,2,15,16,17,half,len-1 with gaps around the sniff (1 s) and DNS (5 s) windows +-20 ms, follow-up payloads incl. 4095-4097 and 32767-32769 bytes, both orders of the two ends of stream, server data around client-EOF + grace +-10 ms, ports 53/22/3306 (excluded) and 80/443/8080, outbounds direct/block/user, dial mode ip; splice-pool scenarios on real sockets (back-pressured upload ended at each exit of relaySpliceCopyExact - ctx at the loop top after the n-th partial / n-th drain, cancelled while blocked, upstream reset, clean EOF - then 1-3 healthy connections reusing the pooled pipes; pool fill levels observed); real-socket gate family (bufio/prefixed/sniffer stacks, the client's next segment pending in the socket when the relay starts, sizes around 4096 and 32768); fixed half-close family (first half-close at relay age 0.5/1/1.5/3 x grace, remaining bytes of the other direction half a grace later, every wrapper stack, either side first); overlapping-connection scenarios (2-4 connections over the shared buffer pools on one P: each prologue runs while others are parked between prologue and relay, random valid orders, every connection judged on its own bytes); "
                         "signature = (stack at relay start x holds-bytes, detection stages run, ending alive/error/clean, order of the ends of stream, stale-deadline/sticky-error/spin bits); non-trivial = a wrapper on the stack or at least one end of stream",
                    traces_validated_against_impl=sum((len(c["conns"]) if c["kind"] == "multi" else 1) for i, c in enumerate(cases)
                                                      if c["kind"] in ("mem", "multi") and not is_model_fail(all_err.get(i, []))),
                    connections_run=n_conn,
+                   splice_pool_scenarios=len([1 for c in cases if c["kind"] == "splice"]), splice_pool_scenarios_skipped=n_splice_skipped,
                    retried_and_passed=retried_passed, retried_and_still_failing=retried_failed,
                    real_time_policy="verdicts of the in-memory cases use the virtual clock only; harness watchdogs (30-120 s) and real-socket cases are retried x3 with patience x4/x16 before a failure is reported; a persistent hang carries a goroutine dump",
                    overlapping_connection_scenarios=len([1 for c in cases if c["kind"] == "multi"]),
